@@ -202,6 +202,21 @@ CHECKS["C11"] = dict(
     note=TRUST + "Assumes ns, nf >= 2 and sorted sparse input. Not decided: that these unions yield exactly the connected "
          "components, the returned count, equality of the partitions of the three variants.")
 
+CHECKS["C12"] = dict(
+    category="other", design_ref="DESIGN.md section 3 / C12",
+    technique="effect-set / operator-class extraction from the clang AST (accumulator homomorphism), column-table agreement "
+              "from the ast, path rules on the statement CFG (hand-over typestate), call-site census of merge()",
+    text="Static: (R1) add_pixel and merge are classified field by field (sum, max-group, max, min) and must agree, so "
+         "merging two peaks gives the accumulators of the union of their pixels; blobproperties seeds exactly the "
+         "min/max fields with identities; compute_moments reads only accumulated fields; (R2) the 30 titles, "
+         "conversions and printed fields of labelimage are one table with the intended role per column and consistent "
+         "integer typing; (R3) on every path of mergelast the images are swapped once and the previous-frame state is "
+         "taken from the current frame, bloboverlaps is called only with two non-empty frames and in (previous, current) "
+         "order, closed peaks are finished then written, finalise flushes; (R4) merge() is used only in the three "
+         "disjoint link cases, surviving rows are moved by plain copy, labels relabelled through the compaction table.",
+    note=TRUST + "Not decided: one-to-one correspondence with 3-D connected components, centroid/variance arithmetic, "
+         "spatial correction.")
+
 NOT_YET = {}
 
 NOT_APPLICABLE = {
